@@ -180,6 +180,20 @@ func (c20) build(src *gen.Source) *Case {
 		op.Observe = []int{2, 0, 1, 0, 2, 1}[src.Intn(6)]
 		c.History = append(c.History, op)
 	}
+	if src.Chance(1, 10) {
+		// a value derived from IFS and kept between expansions must follow Set AND Unset: the history starts with
+		// "$*" under a non-default IFS, then IFS is unset (or set again), then "$*" once more
+		for len(c.Args) < 3 {
+			c.Args = append(c.Args, fmt.Sprintf("e%d", len(c.Args)))
+		}
+		star := Op{Op: "expand", Name: "*", Value: "${*}", Mode: uint(interp.Quote), Observe: 2}
+		second := Op{Op: "unset", Name: "IFS", Observe: 1}
+		if src.Chance(1, 3) {
+			second = Op{Op: "set", Name: "IFS", Value: src.Pick([]string{",", "", " "}), Observe: 1}
+		}
+		ep := []Op{{Op: "set", Name: "IFS", Value: src.Pick([]string{":", "-x", ""}), Observe: 1}, star, second, star}
+		c.History = append(ep, c.History...)
+	}
 	c.GenTape = src.Rec
 	return c
 }
